@@ -66,9 +66,14 @@ def rt_mro(i):
 #   {name, bases:[idx], dunders:{name_id: accept}, cattrs:[(name, kind)], init:[(name, kind)] or None}
 # accept: "all" | list of accepted argument class ids (others get NotImplemented);  kind: "int" | "meth"
 
+# __getitem__ of every generated class raises IndexError past index 2: otherwise CPython's old-style sequence
+# iteration (list += x, "".join(x) ...) over an instance never terminates
+GETITEM_GUARD = "    if type(k) is int and k > 2: raise IndexError(k)\n"
+
 PROBE_CLASSES = '''class P_: pass
 class F_:
-  def __getitem__(self, k): return 0
+  def __getitem__(self, k):
+''' + GETITEM_GUARD + '''    return 0
   def __neg__(self): return 0
   def __call__(self): return 0
 ''' + "".join(f"  def __{n}__(self, o): return 0\n  def __r{n}__(self, o): return 0\n" for _, n in BINOPS)
@@ -76,6 +81,8 @@ class F_:
 
 def _single(d):
   nm = FIXED_NAMES[d]
+  if d == GETITEM:
+    return f"class G{d}_:\n  def {nm}(self, k):\n{GETITEM_GUARD}    return 0\n"
   return f"class G{d}_:\n  def {nm}(self{'' if d in (NEG, CALL) else ', o'}): return 0\n"
 
 
@@ -167,6 +174,8 @@ def class_source(classes, markers=True):
       nm = FIXED_NAMES[d]
       if d in (NEG, CALL):
         body.append(f"  def {nm}(self): return {ret}")
+      elif d == GETITEM:
+        body.append(f"  def {nm}(self, k):\n{GETITEM_GUARD}    return {ret}")
       elif acc == "all":
         body.append(f"  def {nm}(self, o): return {ret}")
       elif not acc:
@@ -202,25 +211,32 @@ def user_mro(classes):
 # ("ibin", x, op_id, y)  -- in-place, oracle only
 
 def stmt_text(classes, st, var, variant=(0, 0)):
+  """One line per statement.  Operands are first bound to fresh names on the same line (`a7 = 1; b7 = "x";
+  v7 = (a7) + (b7)`): with literal operands written in place the CPython compiler folds every constant
+  expression that succeeds (1 + 1, -(1), "a"[0] ...) and pytype would never see the operator."""
   k = st[0]
+  j = var[1:]
+  a, b = f"a{j}", f"b{j}"
   vx = value_expr(classes, st[1], variant[0])
   if k == "bin":
-    return f"{var} = ({vx}) {BINOPS[st[2] // 2][0]} ({value_expr(classes, st[3], variant[1])})"
+    return f"{a} = {vx}; {b} = {value_expr(classes, st[3], variant[1])}; {var} = ({a}) {BINOPS[st[2] // 2][0]} ({b})"
   if k == "ibin":
-    return f"{var} = ({vx}); {var} {BINOPS[st[2] // 2][0]}= ({value_expr(classes, st[3], variant[1])})"
+    return f"{var} = {vx}; {b} = {value_expr(classes, st[3], variant[1])}; {var} {BINOPS[st[2] // 2][0]}= ({b})"
   if k == "sub":
-    return f"{var} = ({vx})[{value_expr(classes, st[2], variant[1])}]"
+    return f"{a} = {vx}; {b} = {value_expr(classes, st[2], variant[1])}; {var} = ({a})[{b}]"
   if k == "neg":
-    return f"{var} = -({vx})"
+    return f"{a} = {vx}; {var} = -({a})"
   if k == "call":
-    return f"{var} = ({vx})()"
+    return f"{a} = {vx}; {var} = ({a})()"
   if k == "attr":
-    return f"{var} = ({vx}).{st[2]}"
+    return f"{a} = {vx}; {var} = ({a}).{st[2]}"
   if k == "mcall":
-    return f"{var} = ({vx}).{st[2]}()"
-  if k == "raw":
-    return f"{var} = {st[1]}"
+    return f"{a} = {vx}; {var} = ({a}).{st[2]}()"
   raise ValueError(st)
+
+
+def result_var(text):
+  return re.search(r"\bv\d+\b", text).group(0)
 
 
 # ------------------------------------------------------------------------------------------
@@ -260,64 +276,144 @@ def _pytype_batch(job):
     types[m.group(1)] = m.group(2)
   out = []
   for j, l in enumerate(lines):
-    var = l.split(" ", 1)[0]
-    out.append((sorted(errs[j]), types.get(var)))
+    out.append((sorted(errs[j]), types.get(result_var(l))))
   return ("ok", out, stray)
 
 
-def run_pytype(preamble, texts, batch=100, procs=4):
-  """texts: statement texts each assigning v<j> (j local to its batch is NOT required: names are global).
-  Returns list of (error names, pyi type)."""
-  jobs = [(preamble, texts[i:i + batch]) for i in range(0, len(texts), batch)]
-  return _run_jobs(jobs, procs)
-
-
+PROCS = 4
+MEM_LIMIT = 6 << 30          # per worker, bytes of address space
+BATCH_TIMEOUT = 240          # seconds, one batch of <= 100 statements
+_POOL = None
 _WARM = False
+NO_RESULT = "no-result"      # marker: real pytype gave no result for this statement within the limits
 
 
 def warm_up():
-  """First analysis in the parent, so that forked workers inherit the imported modules."""
+  """One tiny analysis in the parent, so that forked workers inherit the imported modules and parsed stubs."""
   global _WARM
   if not _WARM:
     _pytype_batch(("", ["v0 = 1"]))
     _WARM = True
 
 
-def _run_jobs(jobs, procs=4):
-  warm_up()
-  if len(jobs) <= 2 or procs <= 1:
-    rs = [_pytype_batch(j) for j in jobs]
-  else:
+def _init_worker():
+  import resource  # pylint: disable=import-outside-toplevel
+  resource.setrlimit(resource.RLIMIT_AS, (MEM_LIMIT, MEM_LIMIT))
+
+
+def _pool():
+  """All analyses run in recycled worker processes (pytype leaks ~8 MB per analysed module)."""
+  global _POOL
+  if _POOL is None:
     import multiprocessing as mp  # pylint: disable=import-outside-toplevel
-    with mp.get_context("fork").Pool(min(procs, len(jobs))) as pool:
-      rs = pool.map(_pytype_batch, jobs, chunksize=1)
-  out = []
-  for r, j in zip(rs, jobs):
-    if r[0] != "ok":
-      raise common.BuildError("pytype crashed on a generated module: " + r[1] + "\n" + j[0][-300:] + "\n".join(j[1][:5]))
+    warm_up()
+    _POOL = mp.get_context("fork").Pool(PROCS, initializer=_init_worker, maxtasksperchild=12)
+  return _POOL
+
+
+def close_pool():
+  global _POOL
+  if _POOL is not None:
+    _POOL.terminate()
+    _POOL = None
+
+
+def _run_jobs(jobs, timeout=BATCH_TIMEOUT):
+  """-> per job ("ok", out, stray) | ("crash", msg) | ("timeout",)."""
+  import multiprocessing as mp  # pylint: disable=import-outside-toplevel
+  results = [None] * len(jobs)
+  todo = list(range(len(jobs)))
+  while todo:
+    pool = _pool()
+    handles = [(i, pool.apply_async(_pytype_batch, (jobs[i],))) for i in todo]
+    todo = []
+    broken = False
+    for i, h in handles:
+      if broken:
+        if h.ready():
+          results[i] = h.get()
+        else:
+          todo.append(i)
+        continue
+      try:
+        results[i] = h.get(timeout=timeout)
+      except mp.TimeoutError:
+        results[i] = ("timeout",)
+        broken = True
+    if broken:
+      close_pool()
+  return results
+
+
+def _resolve(job, r):
+  """Per-statement results of one job; a failing batch is bisected down to the statements responsible."""
+  pre, lines = job
+  if r[0] == "ok":
     if r[2]:
       raise common.BuildError("pytype reported an error outside the statement lines: %r" % (r[2][:3],))
-    out += r[1]
+    return r[1]
+  if len(lines) == 1:
+    return [(NO_RESULT, r[0] + (": " + r[1] if len(r) > 1 else ""))]
+  h = len(lines) // 2
+  halves = [(pre, lines[:h]), (pre, lines[h:])]
+  rs = _run_jobs(halves, timeout=max(40, BATCH_TIMEOUT * len(lines) // 150))
+  return _resolve(halves[0], rs[0]) + _resolve(halves[1], rs[1])
+
+
+def run_pytype_many(mods, batch=100):
+  """mods: [(preamble, [statement text assigning v<j>])].  Returns per module a list of
+  (sorted error names, pyi type) -- or (NO_RESULT, reason)."""
+  jobs, index = [], []
+  for mi, (pre, texts) in enumerate(mods):
+    for off in range(0, len(texts), batch):
+      jobs.append((pre, texts[off:off + batch]))
+      index.append(mi)
+  rs = _run_jobs(jobs)
+  out = [[] for _ in mods]
+  for mi, job, r in zip(index, jobs, rs):
+    out[mi] += _resolve(job, r)
   return out
+
+
+def run_pytype(preamble, texts, batch=100):
+  return run_pytype_many([(preamble, texts)], batch)[0]
 
 
 # ------------------------------------------------------------------------------------------
 # CPython
 
+class _StmtTimeout(BaseException):
+  pass
+
+
+def _alarm(signum, frame):
+  raise _StmtTimeout()
+
+
 def run_cpython(preamble, texts):
-  """Executes each statement in a fresh namespace (class definitions shared).  Returns
+  """Executes each statement in a fresh namespace (class definitions shared), at most 10 s each.  Returns
   [(exception class name or None, message, type name of the value or None)]."""
+  import signal  # pylint: disable=import-outside-toplevel
   base = {}
   exec(preamble, base)  # pylint: disable=exec-used
   out = []
-  for t in texts:
-    ns = dict(base)
-    var = t.split(" ", 1)[0]
-    try:
-      exec(t, ns)  # pylint: disable=exec-used
-      out.append((None, "", type(ns[var]).__name__))
-    except Exception as e:  # pylint: disable=broad-except
-      out.append((type(e).__name__, str(e), None))
+  old = signal.signal(signal.SIGALRM, _alarm)
+  try:
+    for t in texts:
+      ns = dict(base)
+      var = result_var(t)
+      signal.setitimer(signal.ITIMER_REAL, 10)
+      try:
+        exec(t, ns)  # pylint: disable=exec-used
+        out.append((None, "", type(ns[var]).__name__))
+      except _StmtTimeout:
+        out.append(("Timeout", "statement did not finish in 10 s", None))
+      except Exception as e:  # pylint: disable=broad-except
+        out.append((type(e).__name__, str(e), None))
+      finally:
+        signal.setitimer(signal.ITIMER_REAL, 0)
+  finally:
+    signal.signal(signal.SIGALRM, old)
   return out
 
 
@@ -395,6 +491,13 @@ def call0_probed(name):
 ARG_EXPRS = [h[1] for h in HEADS] + ["P_()", "F_()"]
 
 
+def _checked(results, texts):
+  for r, t in zip(results, texts):
+    if r[0] == NO_RESULT:
+      raise TranslatorError(f"pytype gave no result for the probe `{t}`: {r[1]}")
+  return results
+
+
 def probe_pytype(uni):
   """Real pytype on explicit attribute loads / method calls.  Returns rows[i][name] =
   dict(call0=bool|None, acc=[head ids], accP=bool, accF=bool) for present names."""
@@ -403,7 +506,7 @@ def probe_pytype(uni):
   for i in range(NB):
     for n in uni[i]:
       keys.append((i, n, "attr")); texts.append(f"v{len(texts)} = ({HEADS[i][1]}).{n}")
-  r1 = run_pytype(PROBE_CLASSES, texts)
+  r1 = _checked(run_pytype(PROBE_CLASSES, texts), texts)
   present = {(i, n) for (i, n, _), (errs, _) in zip(keys, r1) if not errs}
   texts, keys = [], []
   for (i, n) in sorted(present):
@@ -414,7 +517,7 @@ def probe_pytype(uni):
     if n in FIXED_NAMES[:GETITEM + 1]:
       for a, ex in enumerate(ARG_EXPRS):
         keys.append((i, n, a)); texts.append(f"v{len(texts)} = ({HEADS[i][1]}).{n}({ex})")
-  r2 = run_pytype(PROBE_CLASSES, texts)
+  r2 = _checked(run_pytype(PROBE_CLASSES, texts), texts)
   rows = [dict() for _ in range(NB)]
   for (i, n) in present:
     rows[i][n] = dict(call0=None, acc=[], accP=False, accF=False)
@@ -433,7 +536,7 @@ def probe_pytype(uni):
   cells = [(i, n) for i in range(NB) for n, e in sorted(rows[i].items()) if e["accF"] and not e["accP"]]
   texts = [f"v{k} = ({HEADS[i][1]}).{n}(G{d}_())" for k, (i, n, d) in
            enumerate((i, n, d) for (i, n) in cells for d in range(CALL + 1))]
-  r3 = run_pytype(PROBE_CLASSES + SINGLE_CLASSES, texts) if texts else []
+  r3 = _checked(run_pytype(PROBE_CLASSES + SINGLE_CLASSES, texts), texts) if texts else []
   k = 0
   for (i, n) in cells:
     rows[i][n]["has"] = []
